@@ -182,6 +182,7 @@ type gen struct {
 	modest bool // TTLs from the modest list (histories)
 	tag    string
 	fixTTL int64 // > 0: every TTL of the next messages is this value
+	big    bool  // the next positive answer is larger than any datagram the resolver accepts (TCP items only)
 }
 
 func (g *gen) ttl() uint32 {
@@ -209,6 +210,10 @@ func (g *gen) make(kind string, fam int) *resp {
 	sp := msgSpec{name: g.name, fam: fam, id: rp.ID, qr: true, ra: true, soaTTL: -1, noOPT: r.Chance(1, 4)}
 	positive := func(cname bool) {
 		n := r.Pick(1, 1, 2, 3)
+		if g.big {
+			// an answer that only fits the stream transport (what the TCP retry exists for): 1.3-3 KiB of records
+			n = r.Pick(60, 100, 140)
+		}
 		sp.addrs = g.addrs(fam, n, kind)
 		min := int64(-1)
 		for range sp.addrs {
